@@ -102,9 +102,11 @@ class AstToDjangoQVisitor(visitor.NodeVisitor):
         full_id = owner.name + "__" + node.attr
         return F(full_id)
 
-    def visit_Null(self, node: ast.Null) -> str:
+    def visit_Null(self, node: ast.Null) -> Value:
         ":meta private:"
-        raise NotImplementedError("Should not be reached")
+        # `x eq null` / `x ne null` are handled in `visit_Compare`; anywhere else
+        # (e.g. inside an `in` list) `null` is the SQL NULL value.
+        return Value(None)
 
     def visit_Integer(self, node: ast.Integer) -> Value:
         ":meta private:"
@@ -215,6 +217,12 @@ class AstToDjangoQVisitor(visitor.NodeVisitor):
 
     def visit_Compare(self, node: ast.Compare) -> lookups.Lookup:
         ":meta private:"
+        # `null eq x` means the same as `x eq null`:
+        if isinstance(node.left, ast.Null) and isinstance(
+            node.comparator, (ast.Eq, ast.NotEq)
+        ):
+            node = ast.Compare(node.comparator, node.right, node.left)
+
         lhs = self.visit(node.left)
 
         # Special case: comparison to NULL => isnull=True/False
